@@ -65,7 +65,9 @@ RULE = ("One case = one whole event history applied to a fresh FSM (kinds fsm / 
         "and inside random walks. Kind disp: the caller internal/ppp Dispatcher.HandleFrame with a real LCP/IPCP/IPv6CP "
         "behind it (7 prefixes x 8 phases x 8 protocol numbers x 25 frames, Length-field and truncation variants, raw "
         "short frames, random walks); compared per operation: the three states, tagged sends/callbacks, host "
-        "callbacks, error class. Non-trivial: the history produced at least one send or callback. "
+        "callbacks, error class. Kind sess: a real internal/pppoe SessionState (created by a PADR) driven by frames through "
+        "handlePPP, the AAA verdict, Timeout/Close/terminate; compared per operation: phase, the three automaton states, "
+        "ipcpOpen/ipv6cpOpen/linkEnded and the egress stream. Non-trivial: the history produced at least one send or callback. "
         "Distinct: by case text. The distribution records how many (state, RFC event class) cells of the 10x17 table "
         "were exercised and how many conc cases really overlapped.")
 TRUSTED = ["the option handler is abstracted to the class of its answer (good/nak/rej/both) for the automaton; "
